@@ -3,6 +3,8 @@ package main
 // Trusted effect signatures of library calls (math/big, ff, ffg, hashes, hex...).
 //
 // Eff:  "W"  the receiver object is written, all arguments are read
+//       "W+01" the receiver AND arguments 0 and 1 are written (big.Int.GCD(x, y, a, b)
+//            stores the Bezout cofactors into x and y)
 //       "R"  receiver and arguments are only read
 //       "W0" argument 0 is written, receiver and other arguments are read
 //       "W1" argument 1 is written (io.ReadFull(r, buf))
@@ -35,7 +37,13 @@ func init() {
 	// math/big.Int
 	addMethods("big.Int", "W", "recv", Type{}, "Set", "Add", "Sub", "Mul", "Mod", "ModInverse",
 		"ModSqrt", "Lsh", "Rsh", "SetBytes", "SetUint64", "SetInt64", "Exp", "Neg", "Abs",
-		"Div", "Quo", "Rem", "And", "Or", "Xor", "Not", "SetBit", "Sqrt", "GCD", "SetBits")
+		"Div", "Quo", "Rem", "And", "Or", "Xor", "Not", "SetBit", "Sqrt")
+	// Reviewed against the math/big documentation: of the methods listed in this
+	// table only GCD writes ARGUMENTS (x, y); DivMod / QuoRem (which write m / r)
+	// and SetBits (after which the receiver SHARES the storage of its argument:
+	// later writes to the receiver write the argument's array) are deliberately
+	// NOT listed: an unlisted method is an unknown call.
+	addMethods("big.Int", "W+01", "recv", Type{}, "GCD")
 	addMethods("big.Int", "W", "recv", Type{}, "SetString") // (z, ok)
 	addMethods("big.Int", "R", "scalar", intT, "Cmp", "CmpAbs", "Sign", "Bit", "BitLen", "Int64",
 		"Uint64", "IsInt64", "IsUint64", "ProbablyPrime", "TrailingZeroBits")
